@@ -282,6 +282,36 @@ class System(ManagerSystem):
                         issues.append(self.issue("violation", hist, op, f"copy_expr_from(binding {bname}, overwrite={ow}) onto a manager that already "
                                                                         f"defines {c.ref(k0[1])} leaves indices that do not follow from the definitions: {probs[0]}"))
                         return issues
+        # ---- ONE destination manager used twice: first a copy rebound to a nested ref, then a copy / a load WITHOUT rebinding, which
+        # must land on the destination's own container labelled 's' (a rebinding is an argument of one call, not state)
+        if ns.tasks:
+            for second in ("copy", "load"):
+                c = Sub(self.world, contents, "t", True)
+                own = c.m.ref(wrap(contents, ("s",), c.trace), "s")
+                roots_own = {"s": own, "f": c.roots["f"]}
+                try:
+                    c.m.copy_expr_from(m, "s", bindings={"s": c.bound})
+                    if second == "copy":
+                        c.m.copy_expr_from(m, "s")
+                    else:
+                        c.m.load(dump)
+                except BaseException as e:  # noqa
+                    issues.append(self.issue("violation", hist, op, f"copy_expr_from(binding s -> t['sub']) followed by a plain {second} on the same "
+                                                                    f"destination raised {type(e).__name__}: {str(e)[:160]}"))
+                    return issues
+                for roots_, where in ((c.roots, "t['sub'] (first, rebound copy)"), (roots_own, f"the destination's own s (second, plain {second})")):
+                    for tid, t in ns.tasks.items():
+                        e = T.ref_of(roots_, tid[1])._expr
+                        want = T.to_ref(t.term, roots_)
+                        if e is None or not (e == want):
+                            issues.append(self.issue("violation", hist, op, f"copy_expr_from(binding s -> t['sub']) followed by a plain {second} on the "
+                                                                            f"same destination: on {where}, {T.ref_of(roots_, tid[1])} is defined as {e}, "
+                                                                            f"expected {want}"))
+                            return issues
+                if len(c.m.tasks) != 2 * len(ns.tasks):
+                    issues.append(self.issue("violation", hist, op, f"copy_expr_from(binding s -> t['sub']) followed by a plain {second}: "
+                                                                    f"{len(c.m.tasks)} definitions, expected {2 * len(ns.tasks)}"))
+                    return issues
         # ---- a rebinding map with TWO labels: the definitions also reference the function container 'f'; it is rebound to a ref
         # with another label while the destination owns an unrelated container labelled 'f'
         if any(_uses_call(t.term) for t in ns.tasks.values()):
@@ -327,7 +357,7 @@ class System(ManagerSystem):
 
 
 # ---------------------------------------------------------------------- (E) term level
-KEYS = ["a", "s", "f", "s_a", "a.b", "a']['b", "s['a']", "x y", "é", 0, 1, -1, 10]
+KEYS = ["a", "s", "f", "s_a", "a.b", "a']['b", "s['a']", "x y", "é", 0, 1, -1, 10, 2 ** 64 + 5, -(2 ** 70), 2 ** 31]
 CONSTS = [0, 1, -1, 2, 7, -3, 0.5, -2.5, 1e10, 1e-7, -1e-3, 123456789, 2.0, -0.0, 0.0]
 
 
@@ -479,7 +509,14 @@ def check_terms(chunk):
             continue
         if not hasattr(e, "_get_value"):
             continue
-        txt = str(e)
+        try:
+            txt = str(e)
+        except Exception as ex:  # noqa
+            if len(out["issues"]) < 30:
+                out["issues"].append({"kind": "violation", "property": "C11", "finding": None, "config": {},
+                                      "what": f"printing the expression {T.show(t)} raised {type(ex).__name__}: {ex}",
+                                      "program": [f"str({T.show(t)})"], "case": {"term": repr(t), "chunk": where}})
+            continue
         out["texts"].add(txt)
         try:
             e2 = eval(txt, dict(ns))
@@ -540,6 +577,71 @@ def has_cmp(t):
     return any(has_cmp(x) for x in t if isinstance(x, tuple))
 
 
+# ---------------------------------------------------------------------- nested targets: an element and the container holding it
+def overlap_cases():
+    """managers that define an ELEMENT of a container and the CONTAINER itself (either order), dumped and loaded / copied into a
+    fresh destination or one that already defines the element or the container, overwrite False / True.  Only the set of
+    definitions is compared (how such a pair reacts to assignments is outside C01's domain)."""
+    import xdeps
+    fc = {"list": lambda a, n=2: [a * k for k in range(n)], "dict": lambda a, n=2: {"x": a, "y": a * n},
+          "obj": lambda a, n=2: T.PObj(x=a, y=a * n)}
+
+    def fresh(kind):
+        m = xdeps.Manager()
+        if kind == "list":
+            c = {"a": 1, "b": 2, "n": [0, 0, 0]}
+            el = lambda v: v["n"][2]  # noqa
+        elif kind == "dict":
+            c = {"a": 1, "b": 2, "n": {"x": 0, "y": 0}}
+            el = lambda v: v["n"]["y"]  # noqa
+        else:
+            c = {"a": 1, "b": 2, "n": T.PObj(x=0, y=0)}
+            el = lambda v: v["n"].y  # noqa
+        return m, m.ref(c, "v"), m.ref(fc, "f"), el
+
+    out, n = [], 0
+    for kind in ("list", "dict", "obj"):
+        for order in ("element-first", "container-first"):
+            src, vs, fs, el = fresh(kind)
+            defs = [("el", lambda v, f: v["b"] * 2), ("co", lambda v, f: f[kind](v["a"], n=3))]
+            if order == "container-first":
+                defs.reverse()
+            for which, mk in defs:
+                if which == "el":
+                    src.set_value(el(vs), mk(vs, fs))
+                else:
+                    vs["n"] = mk(vs, fs)
+            dump = src.dump()
+            for pre in (None, "el", "co"):
+                for ow in (False, True):
+                    for how in ("load", "copy"):
+                        n += 1
+                        dst, vd, fd, eld = fresh(kind)
+                        expect = dict(dump)
+                        if pre == "el":
+                            dst.set_value(eld(vd), vd["a"] - vd["b"])
+                            if not ow:
+                                expect[str(eld(vd))] = str(vd["a"] - vd["b"])
+                        elif pre == "co":
+                            vd["n"] = fd[kind](vd["b"])
+                            if not ow:
+                                expect[str(vd["n"])] = str(fd[kind](vd["b"]))
+                        prog = [f"source ({kind}, {order}): dump = {dump}", f"destination pre-defines: {pre}", f"{how}(overwrite={ow})"]
+                        try:
+                            if how == "load":
+                                dst.load(dump, overwrite=ow)
+                            else:
+                                dst.copy_expr_from(src, "v", overwrite=ow)
+                            got = dict(dst.dump())
+                            what = None if got == expect else f"definitions after {how}(overwrite={ow}): {sorted(got.items())}, expected {sorted(expect.items())}"
+                        except Exception as e:  # noqa
+                            what = f"{how}(overwrite={ow}) raised {type(e).__name__}: {e}"
+                        if what:
+                            out.append({"kind": "violation", "property": "C11", "finding": None, "config": {}, "program": prog,
+                                        "what": "an element and the container holding it both defined: " + what, "case": {"overlap": prog}})
+    return n, out
+
+
 # ---------------------------------------------------------------------- driver
 def plan(tier, seed):
     seeds = common.seeds_for(tier, seed, quick=(0,), thorough=(0, 1))
@@ -563,8 +665,9 @@ def run_job(job):
     if a["what"] == "terms":
         corpus = term_corpus(a["tier"])
         r = E.pmap(check_terms, [(a["tier"], lo, corpus[lo:lo + 400]) for lo in range(0, len(corpus), 400)], job.get("nproc", 1))
-        return {"kind": "terms", "evaluations": r["evaluations"], "issues": r["issues"], "texts": len(r.get("texts", ())),
-                "outcomes": r.get("outcomes", {}), "corpus": len(corpus)}
+        n_ov, ov = overlap_cases()
+        return {"kind": "terms", "evaluations": r["evaluations"] + n_ov, "issues": r["issues"] + ov, "texts": len(r.get("texts", ())),
+                "outcomes": r.get("outcomes", {}), "corpus": len(corpus), "overlap_cases": n_ov}
     w = WORLDS[a["world"]]
     return common.run_bfs(System(w, alphabet(w, a["alphabet"], a.get("tier", "thorough")), common.config_info(job)), job)
 
@@ -574,6 +677,7 @@ def finish(plan_, results):
     for r in results:
         if r.get("kind") == "terms":
             issues.extend(r["issues"])
+            cov["element_and_container_both_defined_cases"] = r.get("overlap_cases")
             cov["term_level"] = {"expressions": r["corpus"], "distinct_printed_forms": r["texts"], "outcomes": common.jsonable(r["outcomes"])}
             cov["evaluations"] = int(r["evaluations"])
             cov["distinct_nontrivial"] = int(r["texts"])
@@ -585,6 +689,9 @@ def finish(plan_, results):
 
 def replay(issue):
     import ast
+    if "overlap" in issue.get("case", {}):
+        bad = [i for i in overlap_cases()[1] if i["case"] == issue["case"]]
+        return {"still_fails": bool(bad), "what": bad[0]["what"] if bad else "ok"}
     if "term" in issue.get("case", {}):
         case = issue["case"]
         r = check_terms([ast.literal_eval(case["term"])])
